@@ -3,7 +3,7 @@
 # that property, record exit code and the VIOLATION lines in seeded/<ID>/check_output.txt, and restore /repo straight afterwards.
 # Expected: exit 1 with at least one VIOLATION line for every seed. Nothing is committed to /repo.
 VERIF="$(cd "$(dirname "$0")/.." && pwd)"; cd "$VERIF"
-IDS="${*:-$(ls seeded | grep '^C[0-9][0-9][bcdefg]\?$')}"
+IDS="${*:-$(ls seeded | grep '^C[0-9][0-9][bcdefgh]\?$')}"
 exec 9>/tmp/verif_repo.lock
 RC=0
 for id in $IDS; do
